@@ -184,6 +184,8 @@ MACRO_BODIES = [
     '{% for x in a %}{% else %}{% set v = "M" %}{% endfor %}[v={{ v }}]',
     '{% filter upper %}{% set v = "M" %}{% endfilter %}[v={{ v }}]',
 ]
+# a macro that calls itself: its own name is enclosed at the definition, before the macro is stored
+SELFREC_BODIES = ['{% if a %}{{ m(0) }}x{% endif %}[v={{ v }}]', '{% for x in a %}{{ m(0) }}{% endfor %}']
 CALLER_BODIES = ['[x={{ x }}{{ y }}]', '[v={{ v }}]', '{% if x %}{% set v = "M" %}{% endif %}[v={{ v }}]', '{% set x = v %}[x={{ x }}]']
 CALLER_SIGS = ['x', 'x, y=x', 'x, y=v', 'x=v, y=1']
 
@@ -195,6 +197,9 @@ def macro_family():
             for body in MACRO_BODIES:
                 src = '%s{%% macro m(%s) %%}%s{%% endmacro %%}{{ m(%s) }}|END' % (pre, sig, body, arg)
                 out.append(dict(chain=['macro', sig], leaf=body, src=src, prefix=MACRO_PREFIX.index(pre)))
+        for body in SELFREC_BODIES:
+            src = '%s{%% macro m(a) %%}%s{%% endmacro %%}{{ m(p1) }}|END' % (pre, body)
+            out.append(dict(chain=['macro', 'a'], leaf=body, src=src, prefix=MACRO_PREFIX.index(pre), selfrec=['m']))
         for sig in CALLER_SIGS:
             for body in CALLER_BODIES:
                 src = '%s{%% macro m() %%}<{{ caller(p1) }}>{%% endmacro %%}{%% call(%s) m() %%}%s{%% endcall %%}|END' % (pre, sig, body)
